@@ -173,7 +173,7 @@ def judge (j : Json) : Except String Verdict := do
   let sstore := sorted store
   let mut cover : List String := ["trace", s!"kind:{kind}", s!"procs:{procs}", s!"order:{order}", s!"P:{P}",
     s!"G:{getNatD inp "G"}", s!"contend:{getNatD inp "contend"}",
-    (if getNatD inp "synclag_us" > 0 then "synclag:yes" else "synclag:no")]
+    (if getNatD inp "synclag_us" > 0 then "synclag:yes" else "synclag:no"), s!"batch:{getNatD inp "batch"}"]
   let mut raced := 0
   for pl in plugs do
     if pl.syncs.size == 0 then
@@ -264,6 +264,8 @@ def judge (j : Json) : Except String Verdict := do
             agreeWhy := s!"plugin {pl.p} received a snapshot of {sy.ids.size} containers, the model's has {x.snap.length}"
           else if sorted x.got.toArray != sorted pl.got then
             agreeWhy := s!"plugin {pl.p} received {pl.got.size} creation requests, the model relays {x.got.length} to it"
+        else if !pl.got.isEmpty || x.phase != .idle then
+          agreeWhy := s!"plugin {pl.p} failed its synchronisation (not activated in the model) but received {pl.got.size} creation requests"
         if ((snaps[sy.n]?).getD #[]) != sy.ids then
           agreeWhy := s!"plugin {pl.p} received a snapshot different from the one SyncFn #{sy.n} handed to the callback"
   let agree := agreeWhy == ""
